@@ -1909,7 +1909,9 @@ export class AnyOfDiscriminatedRuntype extends BaseRuntype {
     const printingContext = this.getPrintingContext(ctx);
     const refTarget = this.getRefTarget(runtype);
     if (refTarget != null) {
-      this.ensureContextualDefinition(refTarget.name, refTarget.target, ctx);
+      // same body a plain reference to the named type would register
+      const schemaTarget = printingContext.getNamedTypeSchemaOverride(refTarget.name) ?? refTarget.target;
+      this.ensureContextualDefinition(refTarget.name, schemaTarget, ctx);
       return printingContext.getRef(refTarget.name);
     }
 
